@@ -26,8 +26,20 @@ E4 complement "e4combine" (vlib.sched + vlib.chanbench): the real Channel on a f
 feeds DATA / EXTENDED_DATA(1) through the real handlers, an application task calls set_combine_stderr(True); the
 interleaving (lock operations and every source line of set_combine_stderr / _feed_extended / _feed) is a generated,
 deterministic schedule; optional reader tasks. Same combine (mid) oracle.
+Family "handler" (data produced on the transport thread): a harness ServerInterface whose check_channel_exec /
+shell / subsystem / env / pty / window-change handler writes a generated script to the channel from inside the
+handler - i.e. on the server's transport thread, as one-shot "commands" answered straight from the callback do:
+2-8 sendall / sendall_stderr chunks, optionally send_exit_status, then nothing / shutdown_write / close - on 1-2
+channels, with the client's request (a) not near any re-exchange, (b) crossing a re-exchange started by the server
+(forced with the held link as in props/c11.py: the requests wait on the link, the server's renegotiate_keys() puts
+its KEXINIT on the wire, the client's KEXINIT queues up behind the requests, then everything is released: the handler
+runs between the server's KEXINIT and NEWKEYS and everything it writes is held back until NEWKEYS), (c) followed on
+the link by a KEXINIT of the client, (d) racing an unforced server re-exchange. After the exchange and a sentinel
+round trip the client application reads both streams with generated sizes. Oracle: the no-combining / combine (start)
+stream oracles above (combine (start): the recv stream is the handler's calls in call order) and the exit status.
 Bytes that never arrive: no byte moves anywhere for 20 s while all readers are blocked in recv, in three
-independent runs of the same case.
+independent runs of the same case (handler family: the requests / the re-exchange / the sentinel do not finish
+within 20 s, three times).
 """
 import hashlib
 import itertools
@@ -48,7 +60,11 @@ RULE = (
     "patterns x combine_stderr none/start/mid (stderr being read)/mid-unread (stderr not read before the switch) x exit status 0..2^32-1 x 0-2 renegotiate_keys during transfer x compression on/off x "
     "cipher x MAC x link fragmentation x 0-3 id offset between the two sides; non-trivial = >= 2 channels or a rekey or a mid-transfer "
     "combine; distinct by the whole case. E4 e4combine: <= 5 DATA/EXTENDED_DATA feeds || set_combine_stderr(True) || optional readers under "
-    "the deterministic scheduler (line-level switch points), non-trivial = >= 2 stderr feeds"
+    "the deterministic scheduler (line-level switch points), non-trivial = >= 2 stderr feeds. handler: 1-2 channels x request kind "
+    "exec|shell|subsystem|env|pty|window-change whose server-side handler writes 2-8 stdout/stderr chunks (1..40000 bytes), exit status "
+    "(or none) and nothing|shutdown_write|close from inside the callback (transport thread) x re-exchange none | started by the server and "
+    "crossed by the request (forced with the held link) | client KEXINIT right behind the request | unforced server re-exchange x "
+    "combine_stderr none|start x read sizes; non-trivial = a handler wrote >= 2 messages to one channel"
 )
 
 TO = 30.0
@@ -439,6 +455,270 @@ e4combine_case = st.fixed_dictionaries(
     }
 )
 
+# ----------------------------------------------------------------------------- data written on the transport thread
+
+HREQ = ["exec", "shell", "subsystem", "env", "pty", "window-change"]
+HTO = 20.0
+
+
+class HandlerServer(peers.OpenServer):
+    """Accepts everything; the handler of the request kind a channel's plan names writes the plan's script to the
+    channel from inside the callback (= on the server's transport thread) and returns True."""
+
+    def __init__(self):
+        peers.OpenServer.__init__(self)
+        self.plans = {}  # server-side channel id -> plan dict (filled by the harness before the request is sent)
+        self.transport = None
+
+    def _handle(self, channel, kind):
+        plan = self.plans.get(channel.get_id())
+        if plan is None or plan["req"] != kind or "result" in plan:
+            return True
+        plan["result"] = "running"
+        # is an exchange started by this side in flight right now (user traffic gated)?
+        plan["in_kex"] = not self.transport.clear_to_send.is_set()
+        try:
+            pos = [0, 0]
+            for k, size in plan["script"]:
+                piece = plan["data"][k][pos[k] : pos[k] + size]
+                pos[k] += size
+                (channel.sendall if k == 0 else channel.sendall_stderr)(piece)
+            if plan["status"] is not None:
+                channel.send_exit_status(plan["status"])
+            if plan["end"] == "eof":
+                channel.shutdown_write()
+            elif plan["end"] == "close":
+                channel.close()
+            plan["result"] = "done"
+        except Exception as e:  # judged by the oracle (the handler's writes are documented channel operations)
+            plan["result"] = "error: %r" % (e,)
+        return True
+
+    def check_channel_exec_request(self, channel, command):
+        return self._handle(channel, "exec")
+
+    def check_channel_shell_request(self, channel):
+        return self._handle(channel, "shell")
+
+    def check_channel_subsystem_request(self, channel, name):
+        return self._handle(channel, "subsystem")
+
+    def check_channel_env_request(self, channel, name, value):
+        return self._handle(channel, "env")
+
+    def check_channel_pty_request(self, channel, term, width, height, pixelwidth, pixelheight, modes):
+        return self._handle(channel, "pty")
+
+    def check_channel_window_change_request(self, channel, width, height, pixelwidth, pixelheight):
+        return self._handle(channel, "window-change")
+
+
+def _client_request(chan, kind):
+    if kind == "exec":
+        chan.exec_command("report")
+    elif kind == "shell":
+        chan.invoke_shell()
+    elif kind == "subsystem":
+        chan.invoke_subsystem("verif")
+    elif kind == "env":
+        chan.set_environment_variable("A", "b")
+    elif kind == "pty":
+        chan.get_pty()
+    else:
+        chan.resize_pty(100, 40)
+
+
+def run_handler_case(ctx, case):
+    n_msgs = max(len(c["script"]) + (1 if c["status"] is not None else 0) + (0 if c["end"] == "none" else 1) for c in case["chans"])
+    classes = ["handler", "handler:rekey=" + case["rekey"], "handler:chans=%d" % len(case["chans"])]
+    classes += sorted(set("handler:req=" + c["req"] for c in case["chans"])) + sorted(set("handler:end=" + c["end"] for c in case["chans"]))
+    classes += sorted(set("handler:combine=" + c["combine"] for c in case["chans"]))
+    info = {}
+    v = run_handler_once(case, info)
+    if v is not None and v[0] == "stalled":
+        details = [v[2]]
+        for _ in range(2):
+            v2 = run_handler_once(case, {})
+            if v2 is None or v2[0] != "stalled":
+                ctx.inconc("handler:stall-not-reproduced")
+                ctx.note("last_unreproduced_handler_stall", v[2][:1500])
+                v = v2
+                break
+            details.append(v2[2])
+        else:
+            v = ("streams-arrive", "handler:stalled:rekey=" + case["rekey"], " || ".join(details)[:3800])
+    if info.get("in_kex"):
+        classes.append("handler:wrote-while-own-exchange-in-flight")
+        if info.get("in_kex_msgs", 0) >= 2:
+            classes.append("handler:>=2-messages-held-back-until-NEWKEYS")
+    elif case["rekey"] == "server-crossing" and v is None:
+        ctx.inconc("handler:forced-crossing-not-achieved")
+    ctx.case(case, n_msgs >= 2, classes)
+    if v is not None:
+        ctx.violation(v[0], v[1], case, v[2])
+
+
+def run_handler_once(case, info):
+    """None = all oracles passed; else (clause, bucket, detail); clause "stalled" = something did not finish in HTO s."""
+    server_obj = HandlerServer()
+    link, tc, ts = peers.make_pair()
+    server_obj.transport = ts
+    threads = []
+    mode = case["rekey"]
+    try:
+        ce, se = peers.start_both(tc, ts, server_obj)
+        if ce or se:
+            raise peers.core.HarnessError("C21 harness: handshake failed %r %r" % (ce, se))
+        tc.auth_password("u", "pw")
+        if tc.global_request("verif-sync@verif", wait=True) is None:
+            raise peers.core.HarnessError("C21 harness: sync global request refused / session died: %r" % (tc.get_exception(),))
+        plans = []
+        for i, spec in enumerate(case["chans"]):
+            c = tc.open_session(timeout=TO)
+            sc = ts.accept(TO)
+            if sc is None:
+                raise peers.core.HarnessError("C21 harness: accept() returned nothing")
+            tagged = spec["combine"] != "none"
+            script = [tuple(x) for x in spec["script"]]
+            plan = {
+                "req": spec["req"], "script": script, "status": spec["status"], "end": spec["end"], "cchan": c, "schan": sc,
+                "data": [payload(spec["seed"], 0, sum(n for k, n in script if k == 0), tagged), payload(spec["seed"], 1, sum(n for k, n in script if k == 1), tagged)],
+            }
+            if spec["combine"] == "start":
+                c.set_combine_stderr(True)
+            plans.append(plan)
+            server_obj.plans[sc.get_id()] = plan
+        if not link.wait_quiescent(TO):
+            raise peers.core.HarnessError("C21 harness: link not quiescent after setup")
+        res = {}
+
+        def bg(name, fn):
+            def w():
+                try:
+                    fn()
+                    res[name] = "ok"
+                except Exception as e:  # outcome, judged below
+                    res[name] = "exc %r" % (e,)
+
+            th = threading.Thread(target=w, daemon=True, name="c21-" + name)
+            threads.append(th)
+            th.start()
+
+        c2s = link.ab
+        forced = mode in ("server-crossing", "client-behind")
+        if forced:
+            c2s.set_hold(True)
+        if mode == "server-racing":
+            bg("rekey", ts.renegotiate_keys)
+        for i, plan in enumerate(plans):
+            bg("req%d" % i, lambda plan=plan: _client_request(plan["cchan"], plan["req"]))
+        if forced:
+            if not c2s.wait_pending(len(plans), TO):
+                raise peers.core.HarnessError("C21 harness: requests not pending on the held link")
+            # the KEXINIT of the client (its own, or its answer to the server's) queues up behind the requests
+            bg("rekey", ts.renegotiate_keys if mode == "server-crossing" else tc.renegotiate_keys)
+            if not c2s.wait_pending(len(plans) + 1, TO):
+                raise peers.core.HarnessError("C21 harness: client KEXINIT not pending behind the requests")
+            c2s.set_hold(False)
+        end = time.time() + HTO
+        for th in threads:
+            th.join(max(0.0, end - time.time()))
+        hung = [th.name for th in threads if th.is_alive()]
+        if hung:
+            return ("stalled", "", "still running after %.0f s: %r; results %r; plans %r" % (HTO, hung, res, [p.get("result") for p in plans]))
+        if res.get("rekey", "ok") != "ok":
+            return ("rekey-during-transfer", "handler:renegotiate_keys-raised", res["rekey"])
+        # sentinel round trip: the reply leaves the server's transport thread after everything the handlers wrote
+        sync = {}
+        th = threading.Thread(target=lambda: sync.setdefault("r", tc.global_request("verif-sync@verif", wait=True)), daemon=True)
+        threads.append(th)
+        th.start()
+        th.join(HTO)
+        if th.is_alive():
+            return ("stalled", "", "sentinel global request not answered within %.0f s; plans %r" % (HTO, [p.get("result") for p in plans]))
+        if sync.get("r") is None:
+            return ("transfer-completes", "handler:session-died", "sentinel refused / session died: client %r server %r" % (tc.get_exception(), ts.get_exception()))
+        for i, (spec, plan) in enumerate(zip(case["chans"], plans)):
+            tag = "handler chan%d/%d:req=%s:end=%s:combine=%s:rekey=%s" % (i, len(plans), spec["req"], spec["end"], spec["combine"], mode)
+            if plan.get("result") != "done":
+                return ("transfer-completes", "handler:write-failed:" + str(plan.get("result"))[:30], "%s: handler outcome %r" % (tag, plan.get("result")))
+            rq = res.get("req%d" % i)
+            if rq != "ok" and not (spec["end"] == "close" and "Channel closed" in str(rq)):
+                # a reply-wanting request on a channel the handler closed may legitimately fail with "Channel closed."
+                return ("transfer-completes", "handler:request-failed", "%s: client request %r" % (tag, rq))
+            if plan.get("in_kex"):
+                info["in_kex"] = True
+                info["in_kex_msgs"] = max(info.get("in_kex_msgs", 0), len(plan["script"]) + (1 if spec["status"] is not None else 0) + (0 if spec["end"] == "none" else 1))
+            c = plan["cchan"]
+            c.settimeout(0.0)
+            got = [[], []]
+            for k, f, sizes in ((0, c.recv, spec["reads"]), (1, c.recv_stderr, spec["ereads"])):
+                j = 0
+                while True:
+                    try:
+                        b = f(sizes[j % len(sizes)])
+                    except socket.timeout:
+                        break
+                    j += 1
+                    if not b:
+                        break
+                    got[k].append(b)
+            out, err = b"".join(got[0]), b"".join(got[1])
+            data = plan["data"]
+            bad = None
+            if spec["combine"] == "none":
+                if out != data[0]:
+                    bad = ("stdout-differs", "stdout: read %d sent %d equal prefix %d" % (len(out), len(data[0]), _eqprefix(out, data[0])))
+                elif err != data[1]:
+                    bad = ("stderr-differs", "stderr: read %d sent %d equal prefix %d" % (len(err), len(data[1]), _eqprefix(err, data[1])))
+            else:
+                pos = [0, 0]
+                exp = []
+                for k, size in plan["script"]:
+                    exp.append(data[k][pos[k] : pos[k] + size])
+                    pos[k] += size
+                exp = b"".join(exp)
+                if err:
+                    bad = ("combine-start:stderr-not-empty", "%d bytes on recv_stderr" % len(err))
+                elif out != exp:
+                    bad = ("combine-start:not-wire-order", "combined: read %d expected %d equal prefix %d" % (len(out), len(exp), _eqprefix(out, exp)))
+            if bad:
+                return ("streams-intact", "handler:" + bad[0], "%s: %s; script %r" % (tag, bad[1], plan["script"]))
+            if spec["status"] is not None:
+                if not c.exit_status_ready():
+                    return ("exit-status", "handler:never-arrived", tag)
+                st_got = c.recv_exit_status()
+                if st_got != spec["status"]:
+                    return ("exit-status", "handler:differs:%s" % ("negative" if st_got < 0 else "other"), "%s: sent %d reported %d" % (tag, spec["status"], st_got))
+        return None
+    finally:
+        link.ab.set_hold(False)
+        peers.shutdown(tc, ts)
+        for t in threads:
+            t.join(TO)
+
+
+h_chunk = st.tuples(st.integers(0, 1), st.one_of(st.sampled_from([1, 100, 4032, 32704, 32768, 40000]), st.integers(1, 2000), st.integers(1, 2000)))
+h_chan = st.fixed_dictionaries(
+    {
+        "req": st.sampled_from(HREQ),
+        "seed": st.integers(0, 1 << 30),
+        "script": st.lists(h_chunk, min_size=2, max_size=8),
+        "status": st.one_of(st.none(), st.sampled_from([0, 1, 255, 256, 0x7FFFFFFF, 0x80000000, 0xFFFFFFFF]), st.integers(0, 0xFFFFFFFF)),
+        "end": st.sampled_from(["none", "eof", "close"]),
+        "combine": st.sampled_from(["none", "none", "start"]),
+        "reads": st.lists(st.one_of(st.sampled_from([1, 7, 4096, 32768, 65536, 1 << 22]), st.integers(1, 70000)), min_size=1, max_size=3).filter(lambda l: sum(l) >= 64 * len(l)),
+        "ereads": st.lists(st.one_of(st.sampled_from([1, 7, 4096, 32768, 65536, 1 << 22]), st.integers(1, 70000)), min_size=1, max_size=3).filter(lambda l: sum(l) >= 64 * len(l)),
+    }
+)
+handler_case = st.fixed_dictionaries(
+    {
+        "fam": st.just("handler"),
+        "chans": st.lists(h_chan, min_size=1, max_size=2),
+        "rekey": st.sampled_from(["none", "server-crossing", "server-crossing", "client-behind", "server-racing"]),
+    }
+)
+
 # ----------------------------------------------------------------------------- strategies
 
 chunk_sizes = st.one_of(st.sampled_from([1, 100, 4032, 32704, 32768, 100000]), st.integers(1, 100000))
@@ -496,12 +776,17 @@ def run(ctx):
     ctx.explore(case_strategy(cap), lambda c: run_case(ctx, c), ctx.scale(45, 320), shrink=False)
     # E4 (deterministic, shrinking on): set_combine_stderr(True) interleaved with arriving data at lock / line level
     ctx.explore(e4combine_case, lambda c: run_e4combine(ctx, c), ctx.scale(600, 6000), seed_offset=1)
+    # data written by server application callbacks on the transport thread, with / without a re-exchange in flight
+    ctx.explore(handler_case, lambda c: run_handler_case(ctx, c), ctx.scale(150, 1000), shrink=False, seed_offset=2)
 
 
 def replay(ctx, case):
     case = dict(case)
     if case.get("fam") == "e4combine":
         run_e4combine(ctx, case)
+        return
+    if case.get("fam") == "handler":
+        run_handler_case(ctx, case)
         return
     case["chans"] = [dict(c, pattern=[tuple(p) for p in c["pattern"]]) for c in case["chans"]]
     run_case(ctx, case)
